@@ -3,6 +3,7 @@ import Mathlib.Data.List.Nodup
 import Mathlib.Data.List.Count
 import Mathlib.Data.List.Range
 import Mathlib.Tactic.CasesM
+import Mathlib.Tactic.Ring
 import ParryModel.C19.ModelTopo
 /-!
 # C19 — vocabulary and generic list lemmas for the topological theorems (Theorems2.lean)
